@@ -2,6 +2,7 @@
 import re
 
 import core
+import sx
 from props import transcripts as tr
 
 
@@ -76,8 +77,151 @@ def run(ctx, model):
                 tr.run_case(ctx, model, lines, pend, "single-fault-sweep", "C10", scn, "10.0.0.1/bp/0", False, faults,
                             [b"\x22" * 8, b"\x33" * 8], rep,
                             check=lambda impl, case, policy=policy, faults=faults: oracle(ctx, impl, case, policy, faults))
+    run_real_socket(ctx, model)
     ctx.extra["exhaustive_subdomains"] = "every single-fault position (send raises / message lost / receive raises) x 4 target policies of a 7-call representative history"
     tr.flush(ctx, model, lines, pend)
+
+
+class SpinDetected(BaseException):
+    pass
+
+
+class RawTargetSock:
+    """a raw TCP socket in front of the Lean target, for the REAL pycomm3.socket_.Socket: bytes in, bytes out.
+    `vanish_after`: after that many reply bytes have been delivered the peer is gone (recv returns b"" for ever,
+    as a closed TCP connection does); `chunk`: how many bytes one recv delivers at most."""
+
+    def __init__(self, model, state):
+        self.model, self.st = model, state
+        self.out = bytearray()
+        self.inb = bytearray()
+        self.empty_reads = 0
+
+    def settimeout(self, t):
+        pass
+
+    def setsockopt(self, *a):
+        pass
+
+    def connect(self, addr):
+        self.st["connects"] += 1
+
+    def send(self, data):
+        import socket as _s
+        if self.st["gone"]:
+            raise _s.error("broken pipe")
+        self.out += bytes(data)
+        while len(self.out) >= 24:
+            ln = int.from_bytes(self.out[2:4], "little")
+            if len(self.out) < 24 + ln:
+                break
+            frame, self.out = bytes(self.out[:24 + ln]), self.out[24 + ln:]
+            self.st["frames"].append(frame)
+            out = self.model.ask("target.frame " + sx.hexb(frame))
+            if out.startswith("ok "):
+                body = out[3:]
+                self.inb += bytes.fromhex(body[3:-1]) if len(body) > 3 else b""
+        return len(data)
+
+    def recv(self, n):
+        import socket as _s
+        st = self.st
+        if st["vanish_after"] is not None and st["delivered"] >= st["vanish_after"]:
+            st["gone"] = True
+            self.empty_reads += 1
+            if self.empty_reads > 3000:
+                raise SpinDetected()          # the caller keeps reading a closed connection
+            return b""
+        if not self.inb:
+            raise _s.timeout("timed out")
+        k = min(n, st["chunk"], len(self.inb))
+        if st["vanish_after"] is not None:
+            k = min(k, st["vanish_after"] - st["delivered"])
+        data, self.inb = bytes(self.inb[:k]), self.inb[k:]
+        st["delivered"] += len(data)
+        return data
+
+    def close(self):
+        if not self.st["gone"]:
+            self.model.ask("target.tcpclose")
+
+
+def run_real_socket(ctx, model):
+    """the same lifecycle through the REAL Socket class over a raw byte pipe: the peer vanishes after any number of
+    reply bytes (inside a header, inside a body, between frames).  Failures must surface as library exceptions,
+    never as an endless read; after close() the driver reports not connected and a later open() on a fresh
+    connection works."""
+    import pycomm3.cip_driver as cd
+    import pycomm3.socket_ as ps
+    rng = ctx.rng
+    history = [("open",), ("gmu",), ("gmc",), ("gmc",), ("close",), ("open",), ("gmc",), ("close",)]
+
+    def run(vanish_after, chunk):
+        scn, _, _ = tr.gen_base(rng, policy=(True, True, True), generic=(0, (), b"\x01\x02\x03\x04\x05"))
+        assert model.ask("target.new " + scn) == "ok"
+        st = {"vanish_after": vanish_after, "chunk": chunk, "delivered": 0, "gone": False, "frames": [], "connects": 0}
+        real = ps.socket.socket
+        ps.socket.socket = lambda *a, **k: RawTargetSock(model, st)
+        results = []
+        try:
+            d = cd.CIPDriver("10.0.0.1/bp/0")
+            for op in history:
+                if st["gone"] and op[0] == "open":
+                    # a new TCP connection reaches the (restarted) peer again
+                    st.update(vanish_after=None, gone=False, fresh_peer=True)
+                    model.ask("target.tcpclose")
+                try:
+                    def call():
+                        if op[0] == "open":
+                            return "ok:%s" % d.open()
+                        if op[0] == "close":
+                            d.close()
+                            return "ok"
+                        t = d.generic_message(service=0x0E, class_code=0x70, instance=1, attribute=1, connected=op[0] == "gmc", name="g")
+                        return "tag:%s" % bool(t)
+                    results.append(core.with_budget(20, call))
+                except SpinDetected:
+                    results.append("raise:hang")
+                except BaseException as e:  # noqa
+                    if isinstance(e, (KeyboardInterrupt, SystemExit)):
+                        raise
+                    results.append("raise:" + core.exn_class(e))
+                if op[0] == "close" and d.connected:
+                    results.append("connected-after-close")
+        finally:
+            ps.socket.socket = real
+        return results, st
+
+    healthy, st0 = run(None, 256)
+    total = st0["delivered"]
+    case0 = {"history": [h[0] for h in history], "reply_bytes_of_a_healthy_run": total}
+    ctx.case("real-socket", ("rs", "healthy"))
+    if any(r.startswith("raise") for r in healthy) or "connected-after-close" in healthy:
+        ctx.violation("real-socket-healthy-history-fails", case0, str(healthy))
+        return
+    positions = list(range(0, total + 1)) if ctx.tier == "thorough" else sorted(set(
+        list(range(0, 60)) + [rng.randrange(total + 1) for _ in range(40)] + [total - k for k in range(0, 30)]))
+    for pos in positions:
+        chunk = rng.choice([1, 7, 24, 256])
+        res, st = run(pos, chunk)
+        ctx.case("real-socket", ("rs", pos, chunk))
+        ctx.count("real-socket/vanish-positions")
+        case = dict(case0, peer_vanishes_after_reply_bytes=pos, recv_chunk=chunk, results=res)
+        for r in res:
+            if r == "raise:hang":
+                ctx.violation("endless-read-on-closed-peer", case, "a call kept reading a connection the peer had closed")
+                break
+            if r.startswith("raise:foreign"):
+                ctx.violation("non-library-exception:" + r.split(":")[-1], case, r)
+                break
+            if r == "connected-after-close":
+                ctx.violation("connected-after-close", case, "driver.connected is True after close()")
+                break
+        # the history reopens after the first close: the second session must work whatever happened in the first
+        if not any(r in ("raise:hang",) for r in res):
+            tail = res[-3:] if "connected-after-close" not in res else res[-4:]
+            if st.get("fresh_peer") and tail[0] != "ok:True":
+                ctx.violation("reopen-after-close-fails", case, str(res))
 
 
 def replay(ctx, model, data):
